@@ -50,7 +50,8 @@ LEVEL = {'text': 'Machine-checked (Props/C05.v, 20 theorems, closed under the gl
                  'Trusted: Coq kernel, extraction, harness, the transcription of DWARF 6.2 in Spec/C05*.v.'}
 RULE = ('cases: prog = header parameters (opcode_base 1..255 incl. <13, line_range 1..255, line_base -128..127, '
         'min_inst, max_ops 1..4(+), address size 4/8, both byte orders) x instruction lists of 0..2000 instructions '
-        '(all 12 standard, the 4 extended, unknown extended, every special opcode; padded LEB128; multiple sequences) '
+        '(all 12 standard, the 4 extended, unknown extended, every special opcode; padded LEB128; multiple sequences; '
+        'DW_LNE_define_file entries that repeat a header entry or an earlier definition, or share only the name) '
         'decoded by a LineProgram built directly over a BytesIO with garbage before/after; unit = 1..4 complete units '
         '(versions 2-5, DWARF32/64, legacy tables or v5 entry formats over string/line_strp/strp/udata/data1-16/block) '
         'laid out in one .debug_line with gaps, parsed by DWARFInfo._parse_line_program_at_offset; cu = the same '
@@ -106,7 +107,24 @@ def gen_params(rng, version):
     return [mi, mo, dis, lb, lr, ob]
 
 
-def gen_instr(rng, params, addr, allow_define_file):
+def gen_define_file(rng, pool):
+    """a DW_LNE_define_file; pool = the file table so far (header entries, then earlier definitions).  DWARF
+    6.2.5.3 appends one entry per instruction whatever it holds, so repeats are part of the domain: an entry
+    equal to one already in the table, the same name with other numbers, or a fresh one."""
+    r = rng.random()
+    if pool and r < 0.4:
+        e = list(rng.choice(pool))
+    elif pool and r < 0.6:
+        e = list(rng.choice(pool))
+        j = rng.choice([1, 2, 3])
+        e[j] = e[j] + rng.choice([1, 2, 127, 128])
+    else:
+        e = [_name(rng), _uval(rng), _uval(rng), _uval(rng)]
+    pool.append(e)
+    return ['define_file'] + e
+
+
+def gen_instr(rng, params, addr, allow_define_file, pool=None):
     """one abstract instruction available under the header"""
     ob = params[5]
     r = rng.random()
@@ -130,15 +148,22 @@ def gen_instr(rng, params, addr, allow_define_file):
     if r < 0.65:
         return ['set_discriminator', _uval(rng)]
     if r < 0.8 and allow_define_file:
-        return ['define_file', _name(rng), _uval(rng), _uval(rng), _uval(rng)]
+        return gen_define_file(rng, pool if pool is not None else [])
     op = rng.choice([0, 5, 6, 0x7f, 0x80, 0x81, 0xff, rng.randint(5, 255)])
     return ['ext_unknown', op, bytes(rng.getrandbits(8) for _ in range(rng.choice([0, 0, 1, 2, 9, rng.randint(0, 200)])))]
 
 
-def gen_prog(rng, params, addr, n, allow_define_file=True):
+def gen_prog(rng, params, addr, n, allow_define_file=True, hfiles=()):
+    """hfiles: the file entries of the header ([name, dir, mtime, length]).  Three programs in ten that may define
+    files are 'file heavy': extra DW_LNE_define_file instructions, repeats included, between the others."""
     prog = []
+    pool = [list(f) for f in hfiles]
+    heavy = allow_define_file and n > 0 and rng.random() < 0.3
     for _ in range(n):
-        i = gen_instr(rng, params, addr, allow_define_file)
+        if heavy and rng.random() < max(0.15, 2.0 / n):
+            i = gen_define_file(rng, pool)
+        else:
+            i = gen_instr(rng, params, addr, allow_define_file, pool)
         k = rng.choice([0, 0, 0, 0, 1, 2, 5])
         kl = rng.choice([0, 0, 0, 0, 1, 3])
         prog.append([i, k, kl])
@@ -259,11 +284,20 @@ def gen(ctx):
         le = rng.random() < 0.6
         addr = rng.choice([4, 8])
         params = gen_params(rng, version)
-        prog = gen_prog(rng, params, addr, n, allow_define_file=True)
+        hfiles = [[_name(rng), _uval(rng), _uval(rng), _uval(rng)] for _ in range(rng.choice([0, 0, 1, 2, 4]))] \
+            if version < 5 else []
+        prog = gen_prog(rng, params, addr, n, allow_define_file=version < 5 or rng.random() < 0.1, hfiles=hfiles)
         if n and rng.random() < 0.5:
             prog.append([['end_sequence'], 0, 0])
         cases.append(('prog', [le, addr, version, params, prog, _garbage(rng, rng.choice([0, 0, 3, 40])),
-                               _garbage(rng, rng.choice([0, 0, 5]))]))
+                               _garbage(rng, rng.choice([0, 0, 5])), hfiles]))
+    # ---- repeated file entries (DWARF 6.2.5.3: every DW_LNE_define_file adds an entry, file numbers keep counting)
+    f1, f2 = [b'a.c', 1, 0, 0], [b'b.h', 0, 7, 300]
+    df = lambda f: [['define_file'] + f, 0, 0]
+    p13 = [1, 1, 1, -5, 14, 13]
+    cases.append(('prog', [True, 4, 3, p13, [df(f1), [['set_file', 3], 0, 0], [['copy'], 0, 0]], b'', b'', [f1, f2]]))
+    cases.append(('prog', [True, 8, 2, p13, [df(f2), df(f2), [['set_file', 2], 0, 0], [['special', 20], 0, 0]], b'', b'', []]))
+    cases.append(('prog', [False, 4, 4, p13, [df(f1), df([b'a.c', 2, 0, 0]), df([b'a.c', 1, 0, 1]), df(f1)], b'', b'', [f1]]))
     # ---- the deviations of DESIGN 5 as fixed corpus entries
     cases.append(('prog', [True, 4, 3, [1, 1, 1, -5, 14, 13], [[['copy'], 0, 0], [['end_sequence'], 0, 0]], b'', b'']))
     cases.append(('prog', [True, 4, 4, [4, 4, 1, -5, 14, 13], [[['advance_pc', 3], 0, 0], [['copy'], 0, 0]], b'', b'']))
@@ -291,7 +325,7 @@ def gen(ctx):
                 addr = rng.choice([4, 8])
                 hdr = gen_header(rng, version, is64, addr, lsrefs, srefs)
                 prog = gen_prog(rng, hdr[4], addr, rng.choice([0, 1, 5, 20, rng.randint(0, 60)]),
-                                allow_define_file=version < 5 and kind == 'unit')
+                                allow_define_file=version < 5 and kind == 'unit', hfiles=hdr[7])
                 units.append([hdr, prog, _garbage(rng, rng.choice([0, 0, 1, 13]))])
             lookups = None
             if kind == 'cu':
@@ -331,7 +365,7 @@ _MEMO = {}
 
 
 def _decoded(lp, stream_len):
-    """rows, file entries appended, end - final offset.  get_entries() is memoised by the library and the
+    """rows, file entries appended, end - final offset, the file table after decoding.  get_entries() is memoised by the library and the
     program object is shared through DWARFInfo._linetable_cache, so a repeated lookup reports the first
     observation (the growth of header.file_entry across calls is property C10's subject)."""
     if lp._decoded_entries is not None and id(lp) in _MEMO and _MEMO[id(lp)][0] is lp:
@@ -350,7 +384,30 @@ def _decoded1(lp, stream_len):
     added = [[b'', 0, 0, 0] if not e.name else _fe(e) for e in list(fe)[before:]] if fe is not None else []
     # the loop's final `offset`: stream.tell() after the last instruction, or the start if it never ran
     final = lp.stream.tell() if lp.program_start_offset < lp.program_end_offset else lp.program_start_offset
-    return ['ok', [rows, added, lp.program_end_offset - final]]
+    # the file table a consumer indexes with the file register afterwards: header entries then definitions
+    # (versions 2-4; a version 5 table is a tuple the program cannot extend)
+    fix = lambda e: [b'', 0, 0, 0] if not e.name else _fe(e)
+    table = [fix(e) for e in fe] if fe is not None and lp.header['version'] < 5 else added
+    return ['ok', [rows, added, lp.program_end_offset - final, table]]
+
+
+def _with_table(dec, hfiles):
+    """driver answer ['ok', [rows, defined files, rem]] -> the same with the final file table (header entries
+    followed by the defined files, DWARF 6.2.5.3) as the harness observes it"""
+    if isinstance(dec, list) and len(dec) == 2 and dec[0] == 'ok' and isinstance(dec[1], list) and len(dec[1]) == 3:
+        return ['ok', dec[1] + [[list(f) for f in hfiles] + list(dec[1][1])]]
+    return dec
+
+
+def _unit_with_table(res):
+    """['ok', [[view, start, end], decoded]] -> the same with the final table computed from the view's own
+    file_entry (index 12; versions 2-4) and the decoded definitions"""
+    if isinstance(res, list) and len(res) == 2 and res[0] == 'ok' and isinstance(res[1], list) and len(res[1]) == 2:
+        lpv, dec = res[1]
+        hv = lpv[0]
+        hfiles = hv[12] if isinstance(hv[1], int) and hv[1] < 5 else []
+        return ['ok', [lpv, _with_table(dec, hfiles)]]
+    return res
 
 
 def _view(lp):
@@ -476,7 +533,7 @@ def evaluate(ctx, cases):
     req3, tags3, built = [], [], {}
     for ci, (kind, a) in enumerate(cases):
         if kind == 'prog':
-            le, addr, version, params, prog, pre, post = a
+            le, addr, version, params, prog, pre, post = a[:7]
             pb = pbytes[(ci, None)]
             stream = pre + pb + post
             built[ci] = (stream, len(pre), len(pre) + len(pb))
@@ -517,25 +574,30 @@ def evaluate(ctx, cases):
         ctx.bump('kind', kind)
         if kind in ('prog', 'raw'):
             le, addr, version, params = a[0], a[1], a[2], a[3]
+            hfiles = a[7] if kind == 'prog' and len(a) > 7 else []
             stream, start, end = built[ci]
             ds = DWARFStructs(little_endian=le, dwarf_format=32, address_size=addr)
+            fe0 = ListContainer(Container(name=f[0], dir_index=f[1], mtime=f[2], length=f[3]) for f in hfiles)
             hdr = Container(version=version, minimum_instruction_length=params[0],
                             maximum_operations_per_instruction=params[1], default_is_stmt=params[2],
                             line_base=params[3], line_range=params[4], opcode_base=params[5],
-                            file_entry=ListContainer() if version < 5 else ())
+                            file_entry=fe0 if version < 5 else ())
             def run():
                 lp = LineProgram(hdr, io.BytesIO(stream), ds, start, end)
                 return _decoded(lp, len(stream))
             impl = impl_call(run)
-            model = ans3[ci]
+            model = _with_table(ans3[ci], hfiles)
             if kind == 'prog':
                 wf = bool(info[(ci, None, 'wf')])
                 if version >= 5 and any(i[0][0] == 'define_file' for i in a[4]):
                     wf = False
                 if version < 4 and params[1] != 1:
                     wf = False
-                spec = info[(ci, None, 'rows')]
+                spec = _with_table(info[(ci, None, 'rows')], hfiles)
                 n = len(a[4])
+                ndf = [i[0][1:] for i in a[4] if i[0][0] == 'define_file']
+                ctx.bump('define_file', 'none' if not ndf else 'repeats' if any(
+                    f in hfiles or f in ndf[:j] for j, f in enumerate(ndf)) else 'distinct')
                 ctx.bump('prog_len', '0' if n == 0 else '1-12' if n <= 12 else '13-120' if n <= 120 else '121+')
                 ctx.bump('max_ops', params[1] if params[1] <= 4 else '5+')
                 ctx.bump('opcode_base', '<10' if params[5] < 10 else '10-12' if params[5] < 13 else '13' if params[5] == 13 else '>13')
@@ -556,7 +618,7 @@ def evaluate(ctx, cases):
                     out.append(impl_call(one))
                 return out
             impl = impl_call(run)
-            model = ans3[ci]
+            model = [_unit_with_table(r) for r in ans3[ci]] if isinstance(ans3[ci], list) else ans3[ci]
             proj = lambda res: [_real_projection(r, u[5] != 'skip', u[6] != 'skip') for r, u in zip(res, units)] \
                 if isinstance(res, list) and len(res) == len(units) else res
             exp = [[u[4], u[5], u[6], 0] for u in units]
@@ -579,7 +641,7 @@ def evaluate(ctx, cases):
                     exp.append(['ok', 'none'])
                     continue
                 view, st, en = info[(ci, x, 'view')]
-                exp.append(['ok', [[view, st + offs[x], en + offs[x]], info[(ci, x, 'rows')]]])
+                exp.append(_unit_with_table(['ok', [[view, st + offs[x], en + offs[x]], info[(ci, x, 'rows')]]]))
             def run():
                 out = []
                 if kind == 'unit':
@@ -610,7 +672,8 @@ def evaluate(ctx, cases):
                 ctx.bump('version', u[0][1])
                 ctx.bump('format', 64 if u[0][0] else 32)
             nt = any(len(u[1]) > 0 or u[0][6] or u[0][7] or u[0][9] or u[0][11] for u in units)
-            ctx.record(kind, a, impl=impl, spec=exp, model=ans3[ci], in_domain=wf, nontrivial=nt,
+            mres = [_unit_with_table(r) for r in ans3[ci]] if isinstance(ans3[ci], list) else ans3[ci]
+            ctx.record(kind, a, impl=impl, spec=exp, model=mres, in_domain=wf, nontrivial=nt,
                        key=kind + '-mismatch')
 
 
@@ -619,6 +682,8 @@ def _key(a, impl, spec):
     if impl == spec or not (isinstance(impl, list) and isinstance(spec, list) and impl[0] == 'ok' == spec[0]):
         return 'prog-mismatch'
     ri, rs = impl[1][0], spec[1][0]
+    if ri == rs and (impl[1][1] != spec[1][1] or impl[1][3:] != spec[1][3:]):
+        return 'file-table-after-define_file-differs'
     if len(ri) == len(rs):
         diff = set()
         for x, y in zip(ri, rs):
